@@ -215,6 +215,7 @@ def run(ctx):
     ctx.rule("C07.R3", "an undeclared (implicit) fixed-register operand is loaded immediately before the instruction that reads it", floor=20)
     ctx.extra["implicit_operand_sites"] = implicit_operand_windows(ctx, dump, "x86_64", "C07.R3")
     register_api(ctx, "C07.R7")
+    x86_rm_written(ctx, dump, "C07.R9")
     from .c08 import arm_addressing_bits
     arm_addressing_bits(ctx, "C07.R8")     # a post-indexed or write-back encoding changes the base register, which is declared read-only
     # R2: flag sanity + sibling vectors
@@ -437,3 +438,53 @@ def register_api(ctx, rid):
     ini = ctx.fn(ENC, "Instruction.__init__")
     st = {norm(n.targets[0]): norm(n.value) for n in walk_no_nested(ini) if isinstance(n, ast.Assign) and len(n.targets) == 1}
     ctx.ob(rid, ENC + ":Instruction.__init__", "clobbers, extra_uses and extra_defs are per-instance lists that start empty", all(st.get("self." + k) == "[]" for k in ("clobbers", "extra_uses", "extra_defs")), construct="fresh-lists")
+
+
+# x86-64 mnemonics that write their FIRST operand (read-modify-write, or write only: mov / setcc / pop)
+X86_WRITES_FIRST = X86_RMW | {"mov", "movsx", "movzx", "movsxd", "lea", "pop", "cvtsi2sd", "cvtsi2ss", "cvttsd2si", "cvttss2si", "cvtsd2ss", "cvtss2sd", "movsd", "movss", "movd", "movq", "movups", "movaps"} | {"set" + c for c in ("e", "ne", "z", "nz", "l", "le", "g", "ge", "b", "be", "a", "ae", "s", "ns")}
+X86_READS_ONLY = {"cmp", "test", "jmp", "call", "push", "idiv", "div", "mul", "ucomisd", "ucomiss", "comisd", "comiss"}
+
+
+def x86_rm_written(ctx, dump, rid):
+    """The r/m operand of an x86 instruction is a composite (addressing mode) whose register leaf is declared
+    read-only, because for `[reg + disp]` the register IS only read.  When the r/m operand is a plain register and
+    the instruction writes it (add rm, reg; neg rm; shl rm, cl; mov rm, reg) the instruction has to report that
+    register as DEFINED itself: spilling stores a register back after every instruction that defines it."""
+    ctx.rule(rid, "x86-64: an instruction whose first operand is an r/m operand and whose mnemonic writes its first operand reports the r/m register as defined (rm_written) when the operand is a plain register; instructions that only read it (cmp, test, jmp, ...) do not", floor=30)
+    X = "ppci/arch/x86_64/instructions.py"
+    a = dump["archs"].get("x86_64")
+    ctx.need(a is not None, "x86_64 ISA dump missing")
+    n = 0
+    for ins in a["instructions"]:
+        syn = ins.get("syntax") or []
+        if not syn or not isinstance(syn[0], str):
+            continue
+        mn = syn[0].strip().lower()
+        ops = [e for e in syn if isinstance(e, dict)]
+        if not ops:
+            continue
+        first = ops[0]
+        o = next((x for x in ins["operands"] if x["name"] == first.get("op")), None)
+        if o is None or o.get("is_register") or not o.get("cls_uids"):
+            continue       # first operand is not a composite r/m operand
+        if first.get("op") != "rm":
+            continue
+        site = "ppci/%s:%s" % (ins["file"], ins["name"])
+        flag = ins.get("flags", {}).get("rm_written")
+        if mn in X86_WRITES_FIRST:
+            n += 1
+            ctx.ob(rid, site, "`%s rm, ...` writes its r/m operand: the class declares rm_written" % mn, flag is True and ins.get("overrides_defined_registers") is True, construct="rm-written:" + ins["name"], detail="rm_written = %r; a base class extends defined_registers: %r" % (flag, ins.get("overrides_defined_registers")))
+        elif mn in X86_READS_ONLY:
+            n += 1
+            ctx.ob(rid, site, "`%s rm, ...` only reads its r/m operand: rm_written is not set" % mn, not flag, construct="rm-read-only:" + ins["name"], detail="rm_written = %r" % flag)
+        else:
+            ctx.undecided(rid, site, "mnemonic `%s` with an r/m first operand is in neither table" % mn)
+    ctx.need(n >= 30, "x86_64 instructions with an r/m first operand not enumerated (%d)" % n)
+    base = ctx.project.module(X).defs.get("X86Instruction.defined_registers")
+    ok = False
+    if base is not None:
+        txt = " ".join(norm(base).split())
+        ok = "super().defined_registers" in txt and "self.rm_written" in txt and ".reg_rm" in txt and "isinstance(" in txt
+        ap = [c for c in ast.walk(base) if isinstance(c, ast.Call) and isinstance(c.func, ast.Attribute) and c.func.attr in ("append", "add") and ".reg_rm" in norm(c)]
+        ok = ok and len(ap) == 1
+    ctx.ob(rid, X + ":X86Instruction.defined_registers", "defined_registers adds the register of a plain-register r/m operand when rm_written is set (on top of the declared write operands)", ok, construct="defined-includes-rm")
